@@ -11,6 +11,7 @@ import (
 	"io"
 	"net/http"
 	"net/url"
+	"os"
 	"regexp"
 	"runtime/debug"
 	"strings"
@@ -150,3 +151,11 @@ func parseRSAPEM(b []byte) *rsa.PrivateKey {
 }
 
 type x509Cert = x509.Certificate
+
+// repoDir is the repository the harness was built against (/repo unless VERIF_REPO redirects a run to a scratch copy).
+func repoDir() string {
+	if d := os.Getenv("VERIF_REPO"); d != "" {
+		return d
+	}
+	return "/repo"
+}
